@@ -34,7 +34,8 @@ Inductive case :=
 (* DiscardConsumer / DiscardProducer: nil, no Read, no Write, no Close *)
 | CDiscard (panicked : bool) (e : option err) (reads writes closes : nat)
 (* JSON / XML / YAML: producer then consumer on a supported value, compared in Go (differential
-   only: the encoders are not modelled). fmt 0 json, 1 xml, 2 yaml; ok = equal and no error and the
+   only: the encoders are not modelled). fmt 0 json, 1 xml, 2 yaml, 3 text, 4 byte stream (shape 4:
+   values of 64 KiB and more, shape 5: values with a wire form and a display form); ok = equal and no error and the
    format-specific expectation (UseNumber keeps the digits, no HTML escaping) *)
 | CRoundTrip (fmt : nat) (shape : nat) (panicked : bool) (ok : bool)
 (* JSON / XML / YAML: a number placed at every number slot of one destination shape (interface
